@@ -329,6 +329,10 @@ def run(fx, tier):
     if 'R-DOM' not in v.rules:
         v.rule('R-DOM', 'parked acknowledgements: purged on exactly the paths that start a stream write, only by the writer; stored only by dispatch(); used once')
     fast_reply_rules(fx, v, 'C02')
+    from c01 import reply_matching_rule
+    if 'R-DOM' not in v.rules:
+        v.rule('R-DOM', 'reply matching on control code and packet identifier')
+    reply_matching_rule(fx, v, 'C02')
     v.expect_min('R-VALUES', 40, 'completion sites + raw I/O sites')
     v.expect_min('R-CGRAPH', 60, 'request-continuation paths')
     v.expect_min('R-FLOW', 10, 're-send paths')
